@@ -206,6 +206,13 @@ def check(mg, kind, dt, via, tmpdir):
     elif via == "path.npz":
         f = os.path.join(tmpdir, "u_%s_%s.npz" % (kind, dt))
         mg.save(f, t); loaded = mg.load(f)
+    elif via == "bytesio-offset":
+        # the archive does not start at offset 0 of the file object (the caller wrote a header first and positions the stream itself)
+        f = io.BytesIO(); f.write(b"HEADER--12345"); pos = f.tell(); mg.save(f, t); f.seek(pos); loaded = mg.load(f)
+    elif via == "open-file":
+        fn = os.path.join(tmpdir, "w_%s_%s.bin" % (kind, dt))
+        with open(fn, "wb") as f: mg.save(f, t)
+        with open(fn, "rb") as f: loaded = mg.load(f)
     else:
         f = io.BytesIO(); mg.save(f, t); f.seek(0); loaded = mg.load(f)
     if not np.array_equal(t.data, d0) or t.creator is not c0 or set(t._ops) != o0: bad.append("save altered the tensor")
@@ -225,8 +232,9 @@ def _replay(kind):
 bad = []
 with tempfile.TemporaryDirectory() as d:
     for dt in ("float64", "float32", "float16"):
-        for via in ("path", "path.npz", "bytesio"):
-            b = check(mg, %r, dt, via, d)
+        for via in ("path", "path.npz", "bytesio", "bytesio-offset", "open-file"):
+            try: b = check(mg, %r, dt, via, d)
+            except Exception as e: b = ["raised %%s: %%s" %% (type(e).__name__, str(e)[:80])]
             if b: bad.append((dt, via, b))
 print(bad)
 print('REPRODUCED' if bad else 'NOT-REPRODUCED'); sys.exit(1 if bad else 0)
@@ -245,7 +253,7 @@ def run_files(spec, tier, mg):
     with tempfile.TemporaryDirectory() as d:
         for kind in KINDS:
             for dt in ("bool", "int8", "int64", "float16", "float32", "float64"):
-                for via in ("path", "path.npz", "bytesio"):
+                for via in ("path", "path.npz", "bytesio", "bytesio-offset", "open-file"):
                     lib.reset_state()
                     try:
                         b = ns["check"](mg, kind, dt, via, d)
